@@ -906,9 +906,10 @@ End Range.
 (* the generated test of CounterRemover::Wrapper::operator() (either specialisation) *)
 Lemma generated_counter_test_ok islist : step_ok in_range true (GenAutoRemove.counter_step islist).
 Proof.
-  intros n t R T. assert (W := int_dec_in_range n t R T). destruct R as [R1 R2].
+  intros n t R T. assert (W := int_dec_in_range n t R T). assert (O := no_overflow_in_range n t R T). destruct R as [R1 R2].
   unfold GenAutoRemove.counter_step. destruct islist; cbv zeta; rewrite ?W; split_comparisons; simpl;
-    (eexists; eexists; split; [reflexivity|]; split; [split; intros; try discriminate; try reflexivity; lia|intros; try discriminate; try reflexivity; lia]).
+    (eexists; eexists; split; [reflexivity|]; split; [split; intros; try discriminate; try reflexivity; lia|];
+     split; [intros; try discriminate; try reflexivity; lia|unfold counter_overflowed; rewrite O; reflexivity]).
 Qed.
 
 Lemma generated_counter_removes_before_call islist : GenAutoRemove.counter_removes_before_call islist = true.
@@ -941,16 +942,48 @@ Lemma spec_leafs_ok : leafs_ok in_range spec_leafs.
 Proof.
   unfold leafs_ok, spec_leafs; simpl. split; [|repeat split; reflexivity].
   intros n t [R1 R2] T. replace (n - t - 1)%Z with (n - (t + 1))%Z by lia.
-  eexists; eexists; split; [reflexivity|]. split; [|reflexivity].
+  eexists; eexists; split; [reflexivity|]. split; [|split; reflexivity].
   destruct (Z.leb_spec (n - (t + 1)) 0); split; intros; try discriminate; try reflexivity; lia.
 Qed.
 
 Lemma legacy_leafs_ok : leafs_ok in_range legacy_leafs.
 Proof.
   unfold leafs_ok, legacy_leafs; simpl. split; [|repeat split; reflexivity].
-  intros n t R T. rewrite (int_dec_in_range n t R T). destruct R as [R1 R2].
-  eexists; eexists; split; [reflexivity|]. split; [|reflexivity].
+  intros n t R T. rewrite (int_dec_in_range n t R T). assert (O := no_overflow_in_range n t R T). destruct R as [R1 R2].
+  eexists; eexists; split; [reflexivity|]. split; [|split; [reflexivity|unfold counter_overflowed; rewrite O; reflexivity]].
   destruct (Z.leb_spec (n - (t + 1)) 0); split; intros; try discriminate; try reflexivity; lia.
+Qed.
+
+(* ---- every trigger count an int can hold ---- *)
+
+Definition full_range (n : Z) : Prop := (int_min <= n <= int_max)%Z.
+
+(* the specification's ideal counter covers INT_MIN too *)
+Lemma spec_leafs_ok_full : leafs_ok full_range spec_leafs.
+Proof.
+  unfold leafs_ok, spec_leafs; simpl. split; [|repeat split; reflexivity].
+  intros n t [R1 R2] T. replace (n - t - 1)%Z with (n - (t + 1))%Z by lia.
+  eexists; eexists; split; [reflexivity|]. split; [|split; reflexivity].
+  destruct (Z.leb_spec (n - (t + 1)) 0); split; intros; try discriminate; try reflexivity; lia.
+Qed.
+
+(* a counter wrapper that does not decrement at or below 1, `if(data->triggerCount <= 1 ||
+   --data->triggerCount <= 0)`, written out by hand: it covers INT_MIN on a machine int *)
+Definition guarded_leafs : leafs :=
+  mkLeafs (fun dec n => if (n <=? 1)%Z then (n, true) else (dec n, (dec n <=? 0)%Z)) true true true (fun w => w) true true.
+
+Lemma guarded_leafs_ok_full : leafs_ok full_range guarded_leafs.
+Proof.
+  unfold leafs_ok, guarded_leafs; simpl. split; [|repeat split; reflexivity].
+  intros n t [R1 R2] T. pose proof int_min_nonpos as M.
+  destruct (Z.leb_spec (n - t) 1) as [G|G].
+  - eexists; eexists; split; [reflexivity|]. split; [split; intros; try discriminate; lia|]. split; [discriminate|].
+    unfold counter_overflowed. rewrite Z.eqb_refl. simpl. apply andb_false_r.
+  - assert (W : int_dec (n - t) = (n - (t + 1))%Z).
+    { unfold int_dec, wrap. destruct (Z.ltb_spec (n - t - 1) int_min); [lia|]. destruct (Z.ltb_spec int_max (n - t - 1)); lia. }
+    rewrite W. eexists; eexists; split; [reflexivity|].
+    split; [destruct (Z.leb_spec (n - (t + 1)) 0); split; intros; try discriminate; try reflexivity; lia|].
+    split; [reflexivity|]. unfold counter_overflowed, dec_overflows. destruct (Z.ltb_spec (n - t - 1) int_min); [lia|reflexivity].
 Qed.
 
 (* ---------- trigger count INT_MIN: the decrement overflows ---------- *)
